@@ -385,7 +385,7 @@ def suite_filter_pair(rng, n, stats, kinds=None):
         toks = ts.table(strings_of([p[0] for p in pairs], [p[1] for p in pairs]))
         try:
             if kind == 'overlap':
-                size = rng.randint(1, 4)
+                size = rng.randint(1, 4) if rng.random() < 0.75 else rng.choice([0.5, 1.5, 2.5, 2.0])   # any number > 0 is a valid overlap size
                 op = rng.choice(['>=', '>', '='])
                 f = OverlapFilter(ts.obj, size, op, am)
                 req = {'op': 'filter_pair', 'kind': 'overlap', 'overlap_size': pyv(size), 'comp_op': op, 'allow_missing': am}
@@ -565,7 +565,7 @@ def gen_join_case(rng, stats, which=None, n_jobs_choices=(1, 1, 1, 2, 3, -1, 50)
         t = rng.choice([0, 1, 1, 2, 2, 3, 1.5, 2.0])
         op = rng.choice(['<=', '<=', '<', '='])
     elif which == 'overlap':
-        t = rng.randint(1, 4)
+        t = rng.randint(1, 4) if rng.random() < 0.8 else rng.choice([0.5, 1.5, 2.5, 2.0])
         op = rng.choice(['>=', '>=', '>', '='])
     else:
         t, cls = gen_threshold(rng)
@@ -646,7 +646,7 @@ def norm_multiset(resp):
 def gen_filter(rng, ts, kind, stats):
     am = rng.random() < 0.3
     if kind == 'overlap':
-        size = rng.randint(1, 3)
+        size = rng.randint(1, 3) if rng.random() < 0.75 else rng.choice([0.5, 1.5, 2.5, 2.0])
         op = rng.choice(['>=', '>', '='])
         f = OverlapFilter(ts.obj, size, op, am)
         d = {'kind': 'overlap', 'overlap_size': pyv(size), 'comp_op': op, 'allow_missing': am}
